@@ -9,7 +9,7 @@ import GmqttVerif.Proofs.BrokerInbound
   Vocabulary (`Proofs/Deliver.lean`, `Proofs/BrokerInbound.lean`): an accepted PUBLISH is
   `publish_accepted`: `B.publish r = publishTail …`; `forwarded u qos pid` = not (QoS 2 and pid ∈ u);
   `unackAfterPub u qos pid` = u with pid appended when QoS 2 and new; `pubMsg r` the message built from `r`;
-  `pubRetain`, `pubAck` the retained-store and acknowledgement steps; `Sim u st`: `u` and the component store hold
+  `pubRetain`, `pubAck`, `pubDupQuota` the retained-store, acknowledgement and duplicate quota give-back steps; `Sim u st`: `u` and the component store hold
   the same ids; `InRun conn b evs fl b'`: a run of accepted PUBLISH / PUBREL packets on `conn` from `b` to `b'`, `evs` the
   events as the component model sees them, `fl` for each whether `deliverMessage` was called.
 -/
@@ -20,7 +20,8 @@ open GmqttVerif.Deliver
     are `s.unack`:
     * pid ∉ unack: the id is recorded, the retained store updated, `deliverMessage` is called, PUBREC written;
     * pid ∈ unack (a retransmission, whatever its DUP flag): nothing but the PUBREC — no `deliverMessage`, no
-      retained-store update, the session record unchanged;
+      retained-store update, the session record unchanged — and, on a v5 connection, the receive-quota unit taken
+      for the packet is given back (`pubDupQuota`: the id already holds one unit until its PUBREL);
     and in both cases pid ∈ unack afterwards, on the same connection. -/
 theorem qos2_forward_iff (b : B) (c : Cli) (r : PubReq) (s : Sess) (hq : r.qos = 2) :
     (r.pid ∉ s.unack →
@@ -28,7 +29,7 @@ theorem qos2_forward_iff (b : B) (c : Cli) (r : PubReq) (s : Sess) (hq : r.qos =
         let b1 := (b.setSess { s with unack := s.unack ++ [r.pid] }).pubRetain r false
         let bm := b1.deliverMsg c.cid (pubMsg r) r.hints r.rapHint
         bm.1.pubAck c r bm.2) ∧
-    (r.pid ∈ s.unack → b.publishTail c r s = (b.setSess s).pubAck c r false) ∧
+    (r.pid ∈ s.unack → b.publishTail c r s = ((b.setSess s).pubDupQuota c r true).pubAck c r false) ∧
     (∀ c0, b.cli? r.conn = some c0 →
       (∃ s', (b.publishTail c r s).sess? s.cid = some s' ∧ r.pid ∈ s'.unack) ∧
       (∃ c', (b.publishTail c r s).cli? r.conn = some c' ∧ c'.cid = c0.cid)) := by
@@ -53,7 +54,7 @@ theorem publish_forwards_iff (b : B) (c : Cli) (r : PubReq) (s : Sess) :
         let b1 := (b.setSess { s with unack := unackAfterPub s.unack r.qos r.pid }).pubRetain r false
         let bm := b1.deliverMsg c.cid (pubMsg r) r.hints r.rapHint
         bm.1.pubAck c r bm.2
-      else (b.setSess s).pubAck c r false :=
+      else ((b.setSess s).pubDupQuota c r true).pubAck c r false :=
   publishTail_eq b c r s
 
 /-- 1''. an accepted PUBLISH is `publishTail` (after the receive-quota and topic-alias steps on the connection's own
